@@ -538,6 +538,30 @@ theorem runSolo_guard_eq {prog : List Item} (hacc : acceptProg prog = true) {sem
     rw [gstep_good (h i)]
     exact ih _ (mstep_good hacc hrt i m h)
 
+/-- a call that has returned takes no further steps: its machine step is the
+identity -/
+theorem mstep_finished (prog : List Item) (sem : Sem) (i : ι) (m : Store ι) (s : CallState)
+    (hs : m (.priv i) = .priv s) (hfin : s.stack = []) : mstep prog sem i m = m := by
+  funext a
+  simp only [mstep, hs, decideStep, hfin, applyEffect, applyWrites]
+  by_cases ha : a = .priv i
+  · simp [ha, hs]
+  · simp [ha]
+
+theorem runSolo_finished (prog : List Item) (sem : Sem) (i : ι) (m : Store ι) (s : CallState)
+    (hs : m (.priv i) = .priv s) (hfin : s.stack = []) :
+    ∀ k, runSolo (List.replicate k (mstep prog sem i)) m = m := by
+  intro k
+  induction k with
+  | zero => rfl
+  | succ k ih => simp only [List.replicate_succ, runSolo, mstep_finished prog sem i m s hs hfin, ih]
+
+theorem runSolo_append {A V : Type} (xs ys : List (Step A V)) (m : A → V) :
+    runSolo (xs ++ ys) m = runSolo ys (runSolo xs m) := by
+  induction xs generalizing m with
+  | nil => rfl
+  | cons x xs ih => simp [runSolo, ih]
+
 end Store
 
 end RotoV.Conc.Exec
